@@ -1042,3 +1042,91 @@ Lemma dead_example :
   dead_within ex_conf ex_chan [100; 500] = false /\
   length (snd (fst (fst (tick ex_conf ex_chan 100)))) = 1%nat.
 Proof. vm_compute. splits; try reflexivity. eexists; eexists; splits; reflexivity. Qed.
+
+(* ================= the dispatch rule acknowledges everything it receives ================= *)
+(* after a message reached the receive step: the ZLB timer is armed for now + zlbDelay, or a packet that
+   left afterwards already carries the current Nr *)
+Definition acked_since (f : conf) (now : Z) (old : list pkt) (e : endpoint) : Prop :=
+  exists new, e_sent e = old ++ new /\
+    (c_zlb (e_ch e) = Some (now + f_zlb f) \/
+     (new <> [] /\ forall d, last_nr d new = c_nr (e_ch e))).
+
+Lemma ep_submit_acked f now old e body sid :
+  e_f e = f -> acked_since f now old e ->
+  acked_since f now old (fst (ep_submit e body sid now)) /\
+  c_nr (e_ch (fst (ep_submit e body sid now))) = c_nr (e_ch e) /\
+  e_f (fst (ep_submit e body sid now)) = f.
+Proof.
+  intros Hf (new & Hs & H). unfold ep_submit.
+  destruct (send_session (e_f e) (e_ch e) body sid now) as [c' o] eqn:E. cbn [fst]; ep_simpl.
+  apply send_session_spec in E. destruct E as (_ & B & _ & _ & _ & Em & _ & _ & Z1 & Z2).
+  splits; auto. exists (new ++ o). ep_simpl. split; [rewrite Hs, app_assoc; reflexivity|].
+  destruct o as [|p r].
+  - rewrite app_nil_r, Z1, B by reflexivity. exact H.
+  - right. split; [destruct new; discriminate|]. intros d. rewrite last_nr_app, B.
+    apply last_nr_const; [discriminate|]. intros x Hx. apply (Em x Hx).
+Qed.
+
+Lemma ep_submits_acked f now old rs : forall e,
+  e_f e = f -> acked_since f now old e ->
+  acked_since f now old (ep_submits e rs now) /\ c_nr (e_ch (ep_submits e rs now)) = c_nr (e_ch e).
+Proof.
+  unfold ep_submits. induction rs as [|r rs IH]; intros e Hf H; simpl; [auto|].
+  destruct (ep_submit_acked f now old e (fst r) (snd r) Hf H) as (A & B & C).
+  destruct (IH _ C A) as [A' B']. split; [exact A'|congruence].
+Qed.
+
+(* EVERY non-ZLB message for a registered tunnel passes through the receive step, whatever its type, its
+   session id and whatever its handler does afterwards (m_replies, m_removes arbitrary): Nr moves exactly
+   by the in-order rule and an acknowledgement is owed (timer armed) or already on its way. *)
+Lemma dispatch_acks_everything n m now b :
+  n_known n = true -> m_tid_ok m = true -> k_body (m_pkt m) = Some b ->
+  let n' := node_dispatch n m now in
+  let c := e_ch (n_ep n) in
+  c_nr (e_ch (n_ep n')) = (if k_ns (m_pkt m) =? c_nr c then u16 (c_nr c + 1) else c_nr c) /\
+  acked_since (e_f (n_ep n)) now (e_sent (n_ep n)) (n_ep n').
+Proof.
+  intros Hk Ht Hb. unfold node_dispatch. rewrite Hk, Ht. cbn [andb].
+  unfold ep_deliver.
+  destruct (dispatch false (e_f (n_ep n)) (e_ch (n_ep n)) (m_pkt m) now) as [[c' o] h] eqn:E.
+  pose proof (data_arms_ack _ _ _ _ _ _ _ _ _ Hb E) as Hz.
+  unfold dispatch in E. rewrite Hb in E. apply recv_spec in E.
+  destruct E as (Hh & _ & Hnr & _).
+  set (e1 := mkE (e_f (n_ep n)) c' (e_sent (n_ep n) ++ o) (e_sub (n_ep n))
+                 (match k_body (m_pkt m) with
+                  | Some b0 => if h then e_del (n_ep n) ++ [b0] else e_del (n_ep n)
+                  | None => e_del (n_ep n) end)
+                 (e_acked (n_ep n) ++ acked_range (n_ep n) (length (c_q c')))
+                 (e_dead (n_ep n)) (e_wmax (n_ep n))).
+  assert (A1 : acked_since (e_f (n_ep n)) now (e_sent (n_ep n)) e1).
+  { exists o. split; [reflexivity|]. left. exact Hz. }
+  assert (N1 : c_nr (e_ch e1) = (if k_ns (m_pkt m) =? c_nr (e_ch (n_ep n)) then u16 (c_nr (e_ch (n_ep n)) + 1)
+                                 else c_nr (e_ch (n_ep n)))).
+  { cbn [e1 e_ch]. rewrite Hnr, Hh. reflexivity. }
+  destruct h; cbn [n_ep].
+  - destruct (ep_submits_acked (e_f (n_ep n)) now (e_sent (n_ep n)) (m_replies m) e1 eq_refl A1) as [A2 N2].
+    split; [rewrite N2; exact N1|exact A2].
+  - split; [exact N1|exact A1].
+Qed.
+
+(* ZLBs and messages for a tunnel that is not registered never move Nr *)
+Lemma dispatch_nr_unchanged n m now :
+  (n_known n && m_tid_ok m = false \/ k_body (m_pkt m) = None) ->
+  c_nr (e_ch (n_ep (node_dispatch n m now))) = c_nr (e_ch (n_ep n)).
+Proof.
+  intros H. unfold node_dispatch. destruct (n_known n && m_tid_ok m) eqn:Ek; [|reflexivity].
+  destruct H as [H|H]; [discriminate|].
+  unfold ep_deliver.
+  destruct (dispatch false (e_f (n_ep n)) (e_ch (n_ep n)) (m_pkt m) now) as [[c' o] h] eqn:E.
+  apply dispatch_repaired_spec in E. rewrite H in E. destruct E as (_ & _ & _ & Hh & Hn).
+  subst h. cbn [n_ep e_ch]. exact Hn.
+Qed.
+
+(* the owed acknowledgement is sent by the next Tick at/after the deadline *)
+Definition full_msgs : list nevent :=
+  [ NMsg (mkM true (mkK (Some 1) 0 0 0) [] false) 0; NTick 90;       (* first delivery *)
+    NMsg (mkM true (mkK (Some 1) 5 0 0) [(7, 0)] true) 0; NTick 90 ]. (* retransmission: acknowledged again *)
+Lemma full_example :
+  let n0 := mkN true (new_endpoint 120 240 5 60 16 0 0) in
+  map (fun p => (k_body p, k_nr p)) (e_sent (n_ep (node_run n0 full_msgs))) = [(None, 1); (None, 1)].
+Proof. vm_compute. reflexivity. Qed.
